@@ -145,6 +145,8 @@ void flip(Bytes& b, int bit) { b[bit / 8] ^= uint8_t(0x80 >> (bit % 8)); }
 
 } // namespace
 
+static bool g_c60_assert_internal_prefix = false; // set by the replay-only target below
+
 VERIF_TARGET(c60_subnet, init_c60, 8, 96,
              "IPv4/IPv6 subnets built from (address, prefix length), (address, netmask address), 'addr/len' and 'addr/mask' strings or as single host, with "
              "boundary addresses (all-0, all-1, single bits, mapped/embedded prefixes), lengths 0..32/128 and beyond, contiguous and broken masks; probes at "
@@ -266,10 +268,23 @@ VERIF_TARGET(c60_subnet, init_c60, 8, 96,
     if (e.fam == 6) { Bytes b(e.bytes.begin() + 12, e.bytes.end()); do_probe(b, "low-32-bits-as-ipv4"); }
 
     // ToString -> parse fixpoint
-    if (sn.IsValid()) {
+    // Known finding (known_findings.txt, oracle c60.tostring-internal-prefix): an IPv6 subnet whose masked network base
+    // falls into fd6b:88c0:8724::/48 -- the prefix CNetAddr reserves for "internal" addresses -- prints as a string that
+    // parses back as an internal address, i.e. to an INVALID subnet. That shape is excluded here by construction (and
+    // counted) so that the search continues behind it; the replay-only target c60_subnet_internal_prefix asserts it.
+    bool internal_base = false;
+    if (sn.IsValid() && e.fam == 6 && L < nbits) {
+        static const uint8_t INTERNAL_PFX[6] = {0xfd, 0x6b, 0x88, 0xc0, 0x87, 0x24};
+        Bytes base = e.bytes;
+        for (int bit = L; bit < nbits; ++bit) base[bit / 8] &= uint8_t(~(0x80 >> (bit % 8)));
+        internal_base = memcmp(base.data(), INTERNAL_PFX, 6) == 0;
+        if (internal_base) st.cls("excluded:ipv6-base-in-internal-prefix");
+    }
+    if (sn.IsValid() && !(internal_base && !g_c60_assert_internal_prefix)) {
         std::string str = sn.ToString();
         CSubNet back = LookupSubNet(str);
         st.steps++;
+        if (internal_base) VCHECK(back.IsValid() && back == sn, "c60.tostring-internal-prefix", "subnet string", str, "parses to", back.IsValid() ? back.ToString() : "invalid", "built from", built);
         VCHECK(back.IsValid() && back == sn, "c60.tostring-fixpoint", "subnet string", str, "parses to", back.IsValid() ? back.ToString() : "invalid", "built from", built);
         VCHECK(back.ToString() == str, "c60.tostring-fixpoint", "second print differs:", str, "vs", back.ToString());
         // the printed prefix length is the reference one
@@ -278,6 +293,16 @@ VERIF_TARGET(c60_subnet, init_c60, 8, 96,
     st.mix(uint64_t(match_n) * 16 + nomatch_n);
     st.nontrivial = (ref_valid && L > 0 && L < nbits && match_n >= 2 && nomatch_n >= 2) || !ref_valid;
     g_reachable_nets.Reset();
+}
+
+// Replay-only (known finding): same case decoder as c60_subnet, but the fixpoint is also asserted for IPv6 subnets whose
+// network base lies in the internal-address prefix fd6b:88c0:8724::/48.
+VERIF_TARGET(c60_subnet_internal_prefix, init_c60, 8, 96,
+             "replay-only: c60_subnet with the by-construction exclusion of 'IPv6 network base inside fd6b:88c0:8724::/48' switched off (known finding)")
+{
+    g_c60_assert_internal_prefix = true;
+    c60_subnet_target(s, st);
+    g_c60_assert_internal_prefix = false;
 }
 
 VERIF_TARGET(c60_prefix_table, init_c60, 0, 8,
